@@ -433,3 +433,49 @@ Fixpoint json_at (j : json) (p : rpath) : option json :=
                    | _ => None
                    end
   end.
+
+(** ** where errors come from: the shape of an error
+
+    [field_instance ot w sels prefix p fields]: executing the selections [sels] on the object value
+    [w] of type [ot] located at response path [prefix] executes, there or further below, a field
+    at response path [p] that was selected by exactly the field nodes [fields]. *)
+Definition outcome_field (w : outcome) (fname : name) : option outcome :=
+  match w with OObj _ fs => assoc fname fs | _ => None end.
+
+(** the values inside a field's value, through list items *)
+Inductive reaches : outcome -> list N -> outcome -> Prop :=
+| reaches_here o : reaches o [] o
+| reaches_item l i o idxs o' :
+    nth_error l (N.to_nat i) = Some o -> reaches o idxs o' -> reaches (OList l) (i :: idxs) o'.
+
+(** the object type CompleteValue executes the sub-selections with *)
+Definition s_object_type (S : schema) (n : name) (o : outcome) : option name :=
+  match lookup_type S n with
+  | Some (NObject _ _) => Some n
+  | Some (NInterface _) | Some (NUnion _) =>
+      s_resolve_abstract S n (match o with OObj t _ => Some t | _ => None end)
+  | _ => None
+  end.
+
+Section Shape.
+  Variables (S : schema) (D : document) (E : env) (fuel : nat).
+
+  Inductive field_instance : name -> outcome -> list selection -> rpath -> rpath -> list fnode -> Prop :=
+  | fi_here ot w sels prefix groups key fields :
+      s_collect S D E fuel ot sels = Some groups -> In (key, fields) groups ->
+      field_instance ot w sels prefix (prefix ++ [PKey key]) fields
+  | fi_below ot w sels prefix groups key f more t o idxs o' ot' p fields' :
+      s_collect S D E fuel ot sels = Some groups -> In (key, f :: more) groups ->
+      s_field_kind S ot (fn_name f) = SFType t ->
+      outcome_field w (fn_name f) = Some o -> reaches o idxs o' ->
+      s_object_type S (sty_base t) o' = Some ot' ->
+      field_instance ot' o' (s_merge_selection_sets (f :: more)) (prefix ++ PKey key :: map PIdx idxs) p fields' ->
+      field_instance ot w sels prefix p fields'.
+
+  (** the error belongs to the field at [p] selected by [fields]: its path is [p], possibly
+      continued by list indices; its locations are the position of the first field node, or of
+      all field nodes when the resolver itself failed *)
+  Definition error_shaped (e : gerror) (p : rpath) (fields : list fnode) : Prop :=
+    exists idxs, e_path e = p ++ map PIdx idxs /\
+                 (e_locs e = first_loc fields \/ (idxs = [] /\ e_locs e = map fn_pos fields)).
+End Shape.
